@@ -86,6 +86,29 @@ FAMILIES = {
                         const_var=1),                                              # v1 must be a constant; copied into the function
 }
 
+# DAG-shaped patterns: one pattern node used by several others (the same Python object = the same pattern node)
+_S = O("Add", V(0), V(1))
+_A = O("Abs", V(0))
+_T = O("Neg", _A)
+_DAG = {
+    # shared node reached first as the shallower operand of the root, then through Sigmoid -- and the other way round
+    "dag_a":      dict(pat=O("Mul", _S, O("Sigmoid", _S)), tr="reemit", nv=2),
+    "dag_b":      dict(pat=O("Mul", O("Sigmoid", _S), _S), tr="reemit", nv=2),
+    "dag_a_fn":   dict(pat=O("Mul", _S, O("Sigmoid", _S)), tr="call", nv=2, as_function=True, fn="AddSilu"),
+    "dag_b_fn":   dict(pat=O("Mul", O("Sigmoid", _S), _S), tr="call", nv=2, as_function=True, fn="AddSiluR"),
+    "dag_a_keep": dict(pat=O("Mul", _S, O("Sigmoid", _S)), tr="reemit", nv=2, keep=True),
+    # a shared node feeding three consumers at three depths
+    "dag3":       dict(pat=O("Add", O("Mul", _A, _T), _A), tr="reemit", nv=1),
+    "dag3_fn":    dict(pat=O("Add", O("Mul", _A, _T), _A), tr="call", nv=1, as_function=True, fn="Tri"),
+    "dag3_r_fn":  dict(pat=O("Add", _A, O("Mul", _T, _A)), tr="call", nv=1, as_function=True, fn="TriR"),
+    # two output nodes sharing a producer
+    "two_out":    dict(pat=O("Neg", _A), roots=[O("Neg", _A), O("Relu", _A)], tr="reemit", nv=1),
+    "two_out_fn": dict(pat=O("Neg", _A), roots=[O("Neg", _A), O("Relu", _A)], tr="call", nv=1, as_function=True, fn="NegRelu"),
+    # the replacement introduces a domain the host does not import (a real contrib kernel: x * Sigmoid(1.0 * x))
+    "silu_ms":    dict(pat=O("Mul", V(0), O("Sigmoid", V(0))), tr="quickgelu", nv=1, approx=True, new_domain="com.microsoft"),
+}
+FAMILIES.update(_DAG)
+
 COMMUTATIVE = {"Add", "Mul", "Max", "Min"}
 
 
@@ -129,23 +152,33 @@ class RuleBox:
         names = [f"p{i}" for i in range(nv)]
         nout = spec.get("nout", 1)
 
-        def emit(op, t, env, swap=False):
+        roots = spec.get("roots")
+
+        def emit(op, t, env, swap=False, memo=None):
             if t[0] == "v":
                 return env[t[1]]
             if t[0] == "c":
                 return t[1]                    # python scalar: a pattern Constant
+            memo = {} if memo is None else memo
+            if id(t) in memo:                  # a shared pattern node is emitted once
+                return memo[id(t)]
             _, opname, args, attrs = t
-            vals = [emit(op, a, env, swap) for a in args]
+            vals = [emit(op, a, env, swap, memo) for a in args]
             if swap and opname in COMMUTATIVE and len(vals) == 2:
                 vals = [vals[1], vals[0]]
             kw = dict(attrs)
-            return getattr(op, opname)(*vals, **kw)
+            memo[id(t)] = getattr(op, opname)(*vals, **kw)
+            return memo[id(t)]
 
         def emit_root(op, t, env, swap=False):
+            if roots:
+                memo = {}
+                return tuple(emit(op, r, env, swap, memo) for r in roots)
             if nout == 1:
                 return emit(op, t, env, swap)
             _, opname, args, attrs = t
-            vals = [emit(op, a, env, swap) for a in args]
+            memo = {}
+            vals = [emit(op, a, env, swap, memo) for a in args]
             return getattr(op, opname)(*vals, _outputs=nout, **attrs)
 
         # ---- pattern function with the right arity (the rewriter inspects the signature)
@@ -180,7 +213,9 @@ class RuleBox:
                 zero = op.initializer(ir.tensor(np.array(0.0, dtype=np.float32)), name=f"{box.name}_zero_{box.init_counter}")
                 out = op.Add(emit(op, spec["pat"], env), zero)
             elif tr == "call":
-                out = getattr(op, spec["fn"])(*env, _domain=DOM_FN)
+                out = getattr(op, spec["fn"])(*env, _domain=DOM_FN, _outputs=len(roots) if roots else 1)
+            elif tr == "quickgelu":
+                out = op.QuickGelu(env[0], alpha=1.0, _domain="com.microsoft", _version=1)
             elif tr == "call1":
                 out = getattr(op, spec["fn"])(env[0], _domain=DOM_FN)
             else:
@@ -241,20 +276,27 @@ class HostGen:
         return f"{p}{self.counter}"
 
     # ---- instantiate a pattern tree as host nodes; returns (nodes, root outputs)
-    def instantiate(self, tree, env, consts, tag, nout=1):
+    def instantiate(self, tree, env, consts, tag, nout=1, roots=None):
         nodes = []
+        memo = {}
 
         def go(t, top=False):
             if t[0] == "v":
                 return env[t[1]]
             if t[0] == "c":
                 return consts(t[1], nodes)
+            if id(t) in memo:
+                return memo[id(t)]
             _, opname, args, attrs = t
             ins = [go(a) for a in args]
             n_out = nout if top else 1
             outs = [self.fresh() for _ in range(n_out)]
             nodes.append(HNode(opname, ins, outs, dict(attrs), planted=tag))
-            return outs[0] if n_out == 1 else outs
+            memo[id(t)] = outs[0] if n_out == 1 else outs
+            return memo[id(t)]
+        if roots:
+            outs = [go(r) for r in roots]
+            return nodes, outs
         r = go(tree, top=True)
         return nodes, (r if isinstance(r, list) else [r])
 
@@ -321,9 +363,13 @@ class HostGen:
                 inst_nodes = []
                 if cv is not None:
                     env[cv] = consts(float(rng.choice([1.0, 2.0, -1.0])), inst_nodes)
-                ns, outs = self.instantiate(spec["pat"], env, consts, fam, spec.get("nout", 1))
+                ns, outs = self.instantiate(spec["pat"], env, consts, fam, spec.get("nout", 1), spec.get("roots"))
+                if spec.get("roots"):
+                    self.tags.add("two-output-nodes")
+                if fam in _DAG and not spec.get("roots") and fam != "silu_ms":
+                    self.tags.add("dag-pattern")
                 ns = inst_nodes + ns
-                inter = [o for x in ns[:-1] if x.op != "Constant" for o in x.outs]
+                inter = [o for x in ns if x.op != "Constant" for o in x.outs if o not in outs]
                 if spec.get("nout", 1) == 2:
                     cat = self.fresh()
                     ns.append(HNode("Concat", list(outs), [cat], {"axis": 0}))
@@ -504,6 +550,8 @@ def find_instances(g: HGraph, family, const_ok, graph_outs=None):
     outs = set(o for o, _ in g.outs) if graph_outs is None else set(graph_outs)
     res = []
 
+    tnode = {}
+
     def m(t, val, env, matched, top_idx=None):
         if t[0] == "v":
             if t[1] in env:
@@ -527,11 +575,17 @@ def find_instances(g: HGraph, family, const_ok, graph_outs=None):
                 return False
         if idx in matched and matched[idx] is not t:
             return False
+        if tnode.get(id(t), idx) != idx:
+            return False
+        tnode[id(t)] = idx
         matched[idx] = t
         return all(m(a, i, env, matched) for a, i in zip(args, n.ins))
 
+    if spec.get("roots"):
+        return res                                   # patterns with several output nodes: no progress claim
     for idx, n in enumerate(nodes):
         env, matched = {}, {}
+        tnode.clear()
         if not m(spec["pat"], None, env, matched, top_idx=idx):
             continue
         cv = spec.get("const_var")
